@@ -1,7 +1,7 @@
 """X rules: expiry predicate agreement, ttl conversion, keyset pagination."""
 import ast
 
-from .framework import rule, Ob, fmt_trace, sql_events, call_events, values_in
+from .framework import rule, Ob, fmt_trace, sql_events, call_events, values_in, role_of, within
 from .model import AnalysisError
 from .values import V
 from .rules_lock import core_entries, _is_row_write, _stmt_sig
@@ -141,12 +141,12 @@ def _window_class(trace, start, sel):
     """Classify what the code does with the row of SELECT `sel` after the
     expiry tests ending at index `start`."""
     sst = trace[sel]
-    site = (sst.fn.qual, sst.line, sst.node.col_offset)
+    site = (sst.fn.qual, sst.line, sst.node.col_offset, sst.sites)
     live = expired = False
     why = []
     for e in trace[start:]:
         if e.kind == 'SQL' and e.d['stmt'] is not None and e.seq != sel and \
-                (e.fn.qual, e.line, e.node.col_offset) == site:
+                (e.fn.qual, e.line, e.node.col_offset, e.sites) == site:
             break   # next iteration re-reads
         if e.kind == 'CLEANUP':
             v = e.d['val']
@@ -182,7 +182,7 @@ def _window_class(trace, start, sel):
             expired = True
             why.append('raises KeyError')
             break
-        elif e.kind == 'RETURN' and e.fn is sst.fn:
+        elif e.kind == 'RETURN' and (e.fn is sst.fn or within(sst, e.fn.qual)):
             v = e.d['val']
             if not live and not expired:
                 if v.is_const and v.val is False:
@@ -217,7 +217,7 @@ def x1(ctx):
                     if k in sites:
                         continue
                     plist = None if params is None or isinstance(params, V) else params
-                    role = X1_SQL_ROLES.get(ev.fn.qual)
+                    role = role_of(ev, X1_SQL_ROLES)
                     if not _clock_bound(st, plist):
                         sites[k] = (ev, role, None, 'no parameter compared with expire_time is fed by the clock '
                                     '(time.time() of this call)', st)
@@ -418,7 +418,7 @@ def x3(ctx):
                 st = ev.d['stmt']
                 if st.limit is None or (st.table or '').lower() != 'cache':
                     continue
-                site = (ev.fn.qual, ev.line, ev.node.col_offset)
+                site = (ev.fn.qual, ev.line, ev.node.col_offset, ev.sites)
                 prev = last.get(site)
                 last[site] = ev
                 params = ev.d.get('params')
@@ -554,7 +554,7 @@ def x4(ctx):
                     if a is not None and a[0] == 'atom' and not a[3]:
                         clocks = [x for x in values_in(ev.d['val']) if x.k == 'now']
                 elif ev.kind == 'SQL' and ev.txn and ev.d['stmt'] is not None and ev.d['stmt'].kind == 'select' \
-                        and X1_SQL_ROLES.get(ev.fn.qual) == 'visibility' and _mentions_expire(ev.d['stmt']):
+                        and role_of(ev, X1_SQL_ROLES) == 'visibility' and _mentions_expire(ev.d['stmt']):
                     params = ev.d.get('params')
                     if params is not None and not isinstance(params, V):
                         for i, sl in enumerate(ev.d['stmt'].slots()):
